@@ -887,6 +887,10 @@ def run(ctx):
                 continue
             if v == -1:
                 continue  # Coq evaluation failed: already in `errors`
+            if len(failures) + len(mismatches) >= 6:
+                # the verdict is a violation already; do not spend minutes re-running the rest
+                bump(extra, "further_discrepancies_not_rerun")
+                continue
             cv, crec = confirm_pty(c, v)
             if cv is None:
                 extra["unreproduced_discrepancies"] += 1
